@@ -104,6 +104,8 @@ func genCartHistory(r *engine.Rand, sc *engine.Scenario, c cartConfig, n int, ra
 			return uint8(r.Intn(4))
 		case 3:
 			return 0
+		case 4:
+			return uint8(r.Intn(16)) // every select value of a 4-bit register (MBC3: RAM banks, clock registers, unmapped 0D-0F)
 		}
 		return r.Byte()
 	}
@@ -239,7 +241,9 @@ func executeCart(id string, sc *engine.Scenario, focus string) *engine.Result {
 			switch ev.K {
 			case "bus_w":
 				if ev.A >= 0xa000 && rtcSel {
-					continue // not a RAM access: C10's business
+					// not a RAM access (the clock registers are C10's business), but it is performed:
+					// whatever it does, it must leave every RAM bank as it was
+					res.Probe("window_write_while_clock_register_selected")
 				}
 				ct.Write(ev.A, ev.V)
 				m.Write(ev.A, ev.V)
